@@ -52,8 +52,8 @@ static void run_trace_header(int argc, char **argv) {
     conf_from(argc, argv, &c, &dflt);
     for (int i = 3; i < argc; i++) if (!strcmp(argv[i], "kind=stack")) stack = 1;
     enum cc_stat s;
-    if (stack) s = dflt ? cc_stack_new(&S[0]) : cc_stack_new_conf(&c, &S[0]);
-    else s = dflt ? cc_array_new(&H[0]) : cc_array_new_conf(&c, &H[0]);
+    if (stack) s = VF_OUT(S[0], dflt ? cc_stack_new(&S[0]) : cc_stack_new_conf(&c, &S[0]));
+    else s = VF_OUT(H[0], dflt ? cc_array_new(&H[0]) : cc_array_new_conf(&c, &H[0]));
     if (s != CC_OK) { H[0] = NULL; S[0] = NULL; }
     printf("new %s", vf_stat(s)); obs();
 }
@@ -106,17 +106,18 @@ static void run_op(int argc, char **argv) {
     /* derived: "h1 = h0 subarray b e" | "h1 = h0 copy_shallow|copy_deep|filter" | "s1 = s0 filter"; iterators: "i0 = h0 iter", "z0 = h0 h1 zip" */
     if (argc >= 4 && !strcmp(argv[1], "=")) {
         if ((d = hnum(argv[0], 'h')) >= 0 && (h = hnum(argv[2], 'h')) >= 0 && H[h] && !H[d]) {
-            CC_Array *out = NULL; const char *op = argv[3];
+            CC_Array *out = VF_SENT; const char *op = argv[3];
             if (!strcmp(op, "subarray") && argc > 5) s = cc_array_subarray(H[h], vf_num(argv[4]), vf_num(argv[5]), &out);
             else if (!strcmp(op, "copy_shallow")) s = cc_array_copy_shallow(H[h], &out);
             else if (!strcmp(op, "copy_deep")) s = cc_array_copy_deep(H[h], cp1000, &out);
             else if (!strcmp(op, "filter")) s = cc_array_filter(H[h], pred_even, &out);
             else { printf("badop"); return; }
+            s = vf_out_check(s, (void**)&out);
             if (s == CC_OK) H[d] = out;
             printf("%s %s", op, vf_stat(s)); obs(); return;
         }
         if ((d = hnum(argv[0], 's')) >= 0 && (h = hnum(argv[2], 's')) >= 0 && S[h] && !S[d] && !strcmp(argv[3], "filter")) {
-            CC_Stack *out = NULL; s = cc_stack_filter(S[h], pred_even, &out);
+            CC_Stack *out = VF_SENT; s = vf_out_check(cc_stack_filter(S[h], pred_even, &out), (void**)&out);
             if (s == CC_OK) S[d] = out;
             printf("filter %s", vf_stat(s)); obs(); return;
         }
